@@ -22,8 +22,15 @@ from .common import Check, WORK
 INF = 99
 
 
+NEAR = {"on": False}
+
+
 def _cost(c: int) -> float:
-    return math.inf if c >= INF else (-math.inf if c <= -INF else float(c))
+    if c >= INF or c <= -INF:
+        return math.inf if c > 0 else -math.inf
+    if NEAR["on"]:
+        return 1000.0 + c * 2.0 ** -36      # same order, costs that agree in ~14 significant digits
+    return float(c)
 
 
 def _imports():
@@ -202,6 +209,19 @@ def main(chk: Check) -> None:
         r = run_case(env, c)
         r["id"] = k + 1
         records.append(r)
+    # the same relations on costs that are nearly equal floats (order isomorphic to the integer codes): any rounding /
+    # formatting / tolerance inside a comparison shows up here
+    NEAR["on"] = True
+    try:
+        near = [c for c in cases if c["kind"] != "group"]
+        near = near if thorough else near[::4]
+        for c in near + extra:
+            r = run_case(env, c)
+            r["id"] = len(records) + 1
+            r["near"] = True
+            records.append(r)
+    finally:
+        NEAR["on"] = False
     chk.evaluations = len(records)
     bad, st, consumed = judge(records, "c16")
     chk.states += st
@@ -211,7 +231,7 @@ def main(chk: Check) -> None:
     for rid, clause in bad:
         r = byid[rid]
         chk.violation(clause, {"helper": clause.split(".", 1)[1], "dir": r.get("dir", "-"),
-                               "ties": len(set(r.get("pop", []))) < len(r.get("pop", []))}, {"record": r})
+                               "ties": len(set(r.get("pop", []))) < len(r.get("pop", [])), "near_equal_costs": bool(r.get("near"))}, {"record": r})
     for r in records:
         if r["kind"] == "sel":
             chk.distinct.add((r["kind"], len(r["pop"]), r["n"], r["dir"], len(set(r["pop"])) < len(r["pop"]),
